@@ -2160,6 +2160,10 @@ func (d *Document) parseBodySubElement(decoder *xml.Decoder, startElement xml.St
 	case "sdt":
 		// 块级内容控件（目录等）：保留控件及其中的段落和表格
 		return d.parseSDT(decoder)
+	case "customXml":
+		// 块级自定义XML标记只是包裹着段落和表格：不跳过，调用方继续读取其中的内容，
+		// 这样里面的文字不会丢失（w:customXmlPr 在下一轮被当作未知元素跳过，结束标签被忽略）
+		return nil, nil
 	default:
 		// 跳过未知元素
 		Debugf("跳过未知元素: %s", startElement.Name.Local)
